@@ -221,6 +221,7 @@ func (c *consumerGroup) newSession(ctx context.Context, topics []string, handler
 	switch join.Err {
 	case ErrNoError:
 		c.memberID = join.MemberId
+		verifHook("cg.joined", c.groupID, join.MemberId, join.GenerationId)
 	case ErrUnknownMemberId, ErrIllegalGeneration: // reset member ID and retry immediately
 		c.memberID = ""
 		return c.newSession(ctx, topics, handler, retries)
@@ -262,6 +263,7 @@ func (c *consumerGroup) newSession(ctx context.Context, topics []string, handler
 	}
 	switch groupRequest.Err {
 	case ErrNoError:
+		verifHook("cg.synced", c.groupID, c.memberID, join.GenerationId)
 	case ErrUnknownMemberId, ErrIllegalGeneration: // reset member ID and retry immediately
 		c.memberID = ""
 		return c.newSession(ctx, topics, handler, retries)
@@ -699,6 +701,7 @@ func (s *consumerGroupSession) consume(topic string, partition int32) {
 }
 
 func (s *consumerGroupSession) release(withCleanup bool) (err error) {
+	verifHook("cg.release", s.parent.groupID, s.memberID, s.generationID)
 	// signal release, stop heartbeat
 	s.cancel()
 
